@@ -163,6 +163,123 @@ pub struct Findings {
     pub findings: Vec<Finding>,
 }
 
+/// Judges a scenario: in this process, or - in isolated mode - in a process of its own.
+pub fn judge(def: &PropDef, sc: &Scenario) -> Judgement {
+    if super::core::ISOLATED.load(Ordering::Relaxed) && std::env::var("VERIF_IN_CHILD").is_err() {
+        judge_in_child(def.id, sc)
+    } else {
+        (def.judge)(sc)
+    }
+}
+
+/// Runs the judgement of one scenario in a child process (`simcheck judge-child`). A child that
+/// dies is reported by the caller's clause names; one that does not finish within 120 s is killed.
+pub fn judge_in_child(prop: &'static str, sc: &Scenario) -> Judgement {
+    static N: AtomicU64 = AtomicU64::new(0);
+    let mut j = Judgement::default();
+    let path = std::env::temp_dir().join(format!("simcheck-child-{}-{}.json", std::process::id(), N.fetch_add(1, Ordering::Relaxed)));
+    if std::fs::write(&path, serde_json::to_string(sc).unwrap()).is_err() {
+        j.notes.push("harness-limitation: cannot write the child scenario".into());
+        return j;
+    }
+    let exe = std::env::current_exe().expect("current_exe");
+    let child = std::process::Command::new(exe)
+        .args(["judge-child", prop, path.to_str().unwrap()])
+        .env("VERIF_IN_CHILD", "1")
+        .stdout(std::process::Stdio::piped())
+        .stderr(std::process::Stdio::piped())
+        .spawn();
+    let mut child = match child {
+        Ok(c) => c,
+        Err(e) => {
+            let _ = std::fs::remove_file(&path);
+            j.notes.push(format!("harness-limitation: cannot start the child process: {e}"));
+            return j;
+        }
+    };
+    // read the pipes on threads so that a chatty child cannot block on a full pipe
+    let (mut so, mut se) = (child.stdout.take().unwrap(), child.stderr.take().unwrap());
+    let ho = std::thread::spawn(move || {
+        let mut b = String::new();
+        let _ = std::io::Read::read_to_string(&mut so, &mut b);
+        b
+    });
+    let he = std::thread::spawn(move || {
+        let mut b = Vec::new();
+        let _ = std::io::Read::read_to_end(&mut se, &mut b);
+        String::from_utf8_lossy(&b).to_string()
+    });
+    let t0 = Instant::now();
+    let status = loop {
+        match child.try_wait() {
+            Ok(Some(st)) => break Some(st),
+            Ok(None) => {
+                if t0.elapsed().as_secs() >= 120 {
+                    let _ = child.kill();
+                    let _ = child.wait();
+                    break None;
+                }
+                super::core::heartbeat();
+                std::thread::sleep(std::time::Duration::from_millis(2));
+            }
+            Err(_) => break None,
+        }
+    };
+    let stdout = ho.join().unwrap_or_default();
+    let stderr = he.join().unwrap_or_default();
+    let _ = std::fs::remove_file(&path);
+    j.probe("scenario judged in a process of its own", 1);
+    match status {
+        None => {
+            j.violate("C02", "hang", "hang child-timeout".into(), "judged in a process of its own, the scenario does not finish within 120 s (non-terminating computation inside the server)".into());
+        }
+        Some(st) if !st.success() => {
+            let overflow = stderr.contains("stack overflow") || stderr.contains("overflowed its stack");
+            j.violate(
+                "C02",
+                if overflow { "stack-overflow" } else { "process-died" },
+                if overflow { "stack-overflow".into() } else { "process-died".into() },
+                format!(
+                    "run in a process of its own{} the process dies ({st:?}): {}",
+                    if sc.knobs.stack_kib > 0 { format!(" on a thread with a {} KiB stack (tokio worker threads have 2048 KiB)", sc.knobs.stack_kib) } else { String::new() },
+                    stderr.lines().last().unwrap_or("")
+                ),
+            );
+        }
+        Some(_) => {
+            for l in stdout.lines() {
+                if let Some(rest) = l.strip_prefix("CHILD-VIOLATION ") {
+                    if let Ok(v) = serde_json::from_str::<Value>(rest) {
+                        let property: &'static str = match v["property"].as_str().unwrap_or("") {
+                            "C01" => "C01",
+                            "C02" => "C02",
+                            "C07" => "C07",
+                            "C08" => "C08",
+                            "C18" => "C18",
+                            "C19" => "C19",
+                            "C20" => "C20",
+                            _ => continue,
+                        };
+                        j.violate(
+                            property,
+                            v["clause"].as_str().unwrap_or(""),
+                            v["signature"].as_str().unwrap_or("").to_string(),
+                            v["detail"].as_str().unwrap_or("").to_string(),
+                        );
+                    }
+                } else if let Some(rest) = l.strip_prefix("CHILD-NOTE ") {
+                    j.notes.push(rest.to_string());
+                } else if let Some(rest) = l.strip_prefix("CHILD-RUNS ") {
+                    for _ in 0..rest.trim().parse::<usize>().unwrap_or(0) {
+                        j.runs.push(RunStats::default());
+                    }
+                }
+            }
+        }
+    }
+    j
+}
+
 pub fn verif_root_pub() -> std::path::PathBuf {
     verif_root()
 }
@@ -318,7 +435,7 @@ pub fn run_check(def: &PropDef, tier: Tier, seed: u64, max_items: Option<u64>) -
             return 2;
         }
         let sc = load_scenario(&path);
-        let j = (def.judge)(&sc);
+        let j = judge(def, &sc);
         let own: Vec<&Violation> = j.violations.iter().filter(|v| v.property == def.id).collect();
         if f.status == "open" {
             let still = own.iter().any(|v| f.matches(v));
@@ -364,6 +481,11 @@ pub fn run_check(def: &PropDef, tier: Tier, seed: u64, max_items: Option<u64>) -
         .ok()
         .and_then(|s| s.parse().ok())
         .unwrap_or_else(|| std::thread::available_parallelism().map(|n| n.get()).unwrap_or(4));
+    let isolated = super::core::ISOLATED.load(Ordering::Relaxed);
+    let max_items = if isolated { Some(max_items.unwrap_or(u64::MAX).min(if tier == Tier::Quick { 20_000 } else { 200_000 })) } else { max_items };
+    if isolated {
+        println!("isolated mode: every scenario is judged in a process of its own");
+    }
     let next = AtomicU64::new(0);
     let stop = AtomicBool::new(false);
     let capped = AtomicBool::new(false);
@@ -406,7 +528,7 @@ pub fn run_check(def: &PropDef, tier: Tier, seed: u64, max_items: Option<u64>) -
                         }
                         let Some(sc) = (def.work)(seed, tier, idx) else { break };
                         *watch[w].lock().unwrap() = Some((Instant::now(), sc.clone()));
-                        let j = (def.judge)(&sc);
+                        let j = judge(def, &sc);
                         *watch[w].lock().unwrap() = None;
                         let mut a = agg.lock().unwrap();
                         a.add(&sc, j);
@@ -552,6 +674,20 @@ pub fn run_check(def: &PropDef, tier: Tier, seed: u64, max_items: Option<u64>) -
                 reported += 1;
             }
             None => {
+                if !super::core::ISOLATED.load(Ordering::Relaxed) {
+                    // Seen with many simulations in one process, not in a process of its own: the
+                    // code under test shares process-global state between simulations. Start over
+                    // with every scenario in its own process; that run's verdict is the verdict.
+                    println!(
+                        "NOTE violation {} does not reproduce from its replay file in a fresh process ({last:?}): the simulations of this process influenced each other (process-global state in the code under test). Re-running with every scenario in a process of its own.",
+                        mv.clause
+                    );
+                    let exe = std::env::current_exe().expect("current_exe");
+                    let st = std::process::Command::new(exe)
+                        .args(["check", def.id, "--tier", if tier == Tier::Quick { "quick" } else { "thorough" }, "--seed", &seed.to_string(), "--isolated"])
+                        .status();
+                    return st.ok().and_then(|s| s.code()).unwrap_or(2);
+                }
                 println!(
                     "HARNESS-ERROR: violation {} does not reproduce from its replay file {} in a fresh process ({last:?})",
                     mv.clause,
@@ -604,6 +740,7 @@ pub fn run_check(def: &PropDef, tier: Tier, seed: u64, max_items: Option<u64>) -
             "simulated_runs_per_hour": if wall > 0.0 { (agg.runs as f64 / wall * 3600.0) as u64 } else { 0 },
             "seeds_per_hour": if wall > 0.0 { (agg.scenarios as f64 / wall * 3600.0) as u64 } else { 0 },
             "stopped_by_wall_cap": capped.load(Ordering::Relaxed),
+            "isolated_one_process_per_scenario": isolated,
             "workers": workers,
             "faults_fired": fired,
             "reach_probes": agg.probes,
